@@ -558,10 +558,10 @@ func genC10Routes(w *World, r *Rng, tier string) {
 // failing input (kind, shape, window, position), no model involved.
 func genBigRef(g *Kern, r *Rng, tier string) {
 	type sc struct {
-		k         Kind
-		ch, L, K  int // frames
-		a, n      int // source window [a, a+n) frames of the destination's storage; n < 0: separate buffer of -n frames
-		self      bool
+		k        Kind
+		ch, L, K int // frames
+		a, n     int // source window [a, a+n) frames of the destination's storage; n < 0: separate buffer of -n frames
+		self     bool
 	}
 	var list []sc
 	for _, tot := range []int{1<<16 + 5, 1<<20 + 1<<19, 4 << 20} {
@@ -572,7 +572,7 @@ func genBigRef(g *Kern, r *Rng, tier string) {
 				k = I8
 			}
 			list = append(list,
-				sc{k, ch, 100, K, 50, 3 * K / 8, false},   // overlapping source: starts inside, reaches far beyond
+				sc{k, ch, 100, K, 50, 3 * K / 8, false},    // overlapping source: starts inside, reaches far beyond
 				sc{k, ch, K / 3, K, K/3 - 7, K / 2, false}, // overlapping, long destination
 				sc{k, ch, K / 4, K, 0, -(K / 2), false},    // separate source, in place
 				sc{k, ch, K / 2, K, 0, -(K/2 + 9), false},  // separate source, has to grow
@@ -681,6 +681,41 @@ func genManyAllocs(g *Kern, r *Rng, tier string) {
 	if tier == "thorough" {
 		for i := range runs {
 			runs[i].n *= 8
+		}
+	}
+	// single large allocations around the sizes at which allocators change strategy (32 KiB, 64 KiB, 1 MiB, 4 MiB),
+	// none a multiple of a page: exactly the requested shape, zero over the whole capacity
+	for _, bytes := range []int{32<<10 - 24, 32<<10 + 8, 40000, 64<<10 + 40, 1<<20 + 72, 4<<20 + 136} {
+		for _, k := range []Kind{F64, I16, U8, I32} {
+			for _, ch := range []int{1, 2, 3} {
+				K := bytes / (k.Width() / 8) / ch
+				L := K / 25
+				bad := ""
+				var b DynBuf
+				if p := try(func() { b = Alloc(k, false, signal.Allocator{Channels: ch, Length: L, Capacity: K}) }); p != "" {
+					bad = "panic=" + strings.ReplaceAll(p, " ", "_")
+				} else if b.Channels() != ch || b.Length() != L || b.Capacity() != K || b.Len() != ch*L || b.Cap() != ch*K {
+					bad = fmt.Sprintf("shape got=ch%d/L%d/K%d/len%d/cap%d", b.Channels(), b.Length(), b.Capacity(), b.Len(), b.Cap())
+				} else {
+					_, cells, _ := b.Raw()
+					if len(cells) != ch*K {
+						bad = fmt.Sprintf("storage=%d", len(cells))
+					}
+					for j, x := range cells {
+						if x != 0 {
+							bad = fmt.Sprintf("not-zero pos=%d", j)
+							break
+						}
+					}
+				}
+				st := "ok"
+				if bad != "" {
+					st = "mismatch"
+				}
+				fmt.Fprintf(g.out, "goref C13 large-allocation %s kind=%s ch=%d L=%d K=%d %s\n", st, k, ch, L, K, bad)
+				g.st.lines++
+				g.st.Branches["goref-bigalloc-"+st]++
+			}
 		}
 	}
 	for _, c := range runs {
